@@ -52,6 +52,7 @@ func (c *zxClient) Follow(ctx context.Context, f *common.Follow, opts ...grpc.Ca
 	c.requested = append(c.requested, f.EarliestOffset)
 	c.acceptedAtFollow = append(c.acceptedAtFollow, c.lastAccepted())
 	// the leader resumes right after the requested offset
+	c.next = 1
 	if f.EarliestOffset != nil {
 		c.next = f.EarliestOffset.Position() + 1
 	}
